@@ -94,7 +94,7 @@ def model_check(ctx, module, cfg, expect_ok=True, timeout=1800, workers=None, he
     rc, out = tlc(ctx, module, cfg, workers=workers, timeout=timeout, heap=heap, young=young)
     m = re.search(r"(\d+) states generated, (\d+) distinct states found, (\d+) states left", out)
     ok = "Model checking completed. No error has been found." in out
-    if m is None and not expect_ok and "is violated" in out:     # refuted already in an initial state
+    if m is None and not expect_ok and ("is violated" in out or "is equal to FALSE" in out):     # refuted already in an initial state / constant-level invariant
         ctx.mc_runs.append(dict(module=module, cfg=cfg, generated=0, distinct=0, ok=False, wall_s=round(time.time() - t, 1)))
         ctx.log("R1 %s/%s: refuted in an initial state (control)" % (module, cfg))
         return False, out
